@@ -58,7 +58,7 @@ func TestC06(t *testing.T) {
 	scfg.Faults = 1
 	scfg.ReadFaults = 1
 	scfg.Closes = 3
-	scfg.SharedNamePct = 12 // a keyed write sent twice at the same time (and a third request using the same text as its reference)
+	scfg.SharedNamePct = 12                      // a keyed write sent twice at the same time (and a third request using the same text as its reference)
 	scfg.WideBurstPct = 25                       // several entries queued behind the one being persisted (when a shutdown or a crash comes)
 	scfg.IKPool = []string{"", "", "", "", "k1"} // mostly distinct writes: more logs in flight at a time
 	scfg.Cancels = 2
